@@ -1,5 +1,6 @@
 """Shared harness for the transcription properties (C01, C05, C06, C07, C08): generates Modelica-free
 problems, observes the real transcribe(), and prints the same problem as a Gallina `problem` record."""
+import json
 import math
 from fractions import Fraction
 
@@ -224,7 +225,24 @@ def gen_spec(rng, feat):
                 cm.append([e, lo, hi])
             cons.append(cm)
         spec["constraints"] = cons
+    late_features(spec, feat)
     return spec
+
+
+def late_features(spec, feat):
+    """features added after the main generation; they draw from a generator seeded by the spec itself, so the
+    main random stream (and with it every case generated so far) is unchanged"""
+    import random
+    r2 = random.Random(json.dumps(spec, sort_keys=True, default=str))
+    pars = spec.get("parameters", [])
+    if feat.get("retranscribe") and pars and r2.random() < 0.5:
+        # parameters declared dynamic: the problem is transcribed once with other values, then again with
+        # param_values; the second transcription must be the discretisation for the current values
+        spec["dynamic_parameters"] = sorted(r2.sample(pars, r2.randint(1, len(pars))))
+        first = []
+        for m in range(spec["ensemble_size"]):
+            first.append({p: str(F(spec["param_values"][m][p]) + (dy(r2, 1, 5) if p in spec["dynamic_parameters"] else 0)) for p in pars})
+        spec["first_param_values"] = first
 
 
 def gen_con_bounds(rng, times, E):
@@ -254,6 +272,10 @@ def gen_con_bounds(rng, times, E):
 def observe(spec, probes=2, rng=None, mixins=()):
     P = problems.make_base(spec, mixins)
     p = P()
+    if spec.get("first_param_values"):
+        p._param_override = spec["first_param_values"]
+        p.transcribe()
+        p._param_override = None
     discrete, lbx, ubx, lbg, ubg, x0, nlp = p.transcribe()
     nx = nlp["x"].shape[0]
     gf = ca.Function("gf", [nlp["x"]], [nlp["g"], nlp["f"]])
